@@ -73,3 +73,28 @@ Theorem C13_src_veitch_step :
   = (let n := s + src_veitch_inc (IZR (dkZ nsteps (v_start p))) accepted (v_decay p) delta (v_target p) in if Rltb n 0 then s else n).
 Proof. exact src_veitch_step_tie. Qed.
 Print Assumptions C13_src_veitch_step.
+
+(** Sivia-Skilling, diagonal branch: the factor, the exponent and the cap test as written in /repo today give the model's
+    [ss_update], and the factor moves with the cumulative acceptance rate relative to the target *)
+From Coq Require Import Reals List.
+From Epsie Require Import NumR SrcTie_ss.
+Theorem C13_src_ss_update :
+  forall (p : @ss R) (nsteps : Z) (acc : bool),
+  let nacc := (s_nacc p + (if acc then 1 else 0))%Z in
+  let a0 := src_ss_alpha (IZR nacc) (IZR nsteps) (IZR (s_start p)) (s_target p) in
+  (0 < a0)%R ->
+  s_std (ss_update p nsteps acc)
+  = (if match s_cap p with None => true | Some cap => src_ss_diag_applies a0 (Adapt.list_max (s_std p)) cap end
+     then map (fun s => (s * src_ss_diag_factor a0)%R) (s_std p) else s_std p)
+  /\ s_nacc (ss_update p nsteps acc) = nacc.
+Proof. exact src_ss_update_tie. Qed.
+Print Assumptions C13_src_ss_update.
+
+Theorem C13_src_ss_direction :
+  forall (nacc nsteps start : Z) (target : R),
+  let niter := (nsteps - (start - 1) + 1)%Z in
+  (0 <= nacc <= niter)%Z -> (0 < niter)%Z -> (0 < target < 1)%R ->
+  let a0 := src_ss_alpha (IZR nacc) (IZR nsteps) (IZR start) target in
+  ((target < IZR nacc / IZR niter -> 1 < a0) /\ (IZR nacc / IZR niter < target -> 0 < a0 < 1) /\ 0 < a0)%R.
+Proof. exact src_ss_alpha_direction. Qed.
+Print Assumptions C13_src_ss_direction.
